@@ -3,6 +3,9 @@
 package main
 
 import (
+	"reflect"
+	"strconv"
+
 	"github.com/arr-ai/arrai/rel"
 
 	"verif/harness/hlib"
@@ -58,6 +61,37 @@ func init() {
 			return classify(err, p[0], p[1])
 		}
 		return hlib.Canon(v)
+	})
+}
+
+// relShape reports the physical column that holds `@` in a rel.Relation ("at=0", "at=1", …),
+// read from its unexported heading (attrs) and projector (p); "notrel" for any other value.
+func relShape(v rel.Value) string {
+	r, ok := v.(rel.Relation)
+	if !ok {
+		return "notrel"
+	}
+	rv := reflect.ValueOf(r)
+	attrs, p := rv.FieldByName("attrs"), rv.FieldByName("p")
+	if !attrs.IsValid() || !p.IsValid() || attrs.Len() != p.Len() {
+		return "unknown-layout"
+	}
+	for i := 0; i < attrs.Len(); i++ {
+		if attrs.Index(i).String() == "@" {
+			return "at=" + strconv.FormatInt(p.Index(i).Int(), 10)
+		}
+	}
+	return "no-at"
+}
+
+func init() {
+	// relshape: payload[0] = source of a collection
+	hlib.Register("relshape", func(p []string) string {
+		v, err := hlib.EvalSrc(p[0])
+		if err != nil {
+			return "error"
+		}
+		return relShape(v)
 	})
 }
 
